@@ -154,6 +154,7 @@ class CampaignResult:
         self.viol = []  # (tag, pid, i, op)
         self.dev = []
         self.notes = []
+        self.infos = []
         self.tlc_states = 0
         self.tlc_distinct = 0
         self.wall_harness = 0.0
@@ -234,6 +235,8 @@ def campaign(name, programs, workdir, feat="ref", spec="TraceFatFs", n_shards=No
                 res.dev.append(tuple(f))
             elif kind == "NOTE":
                 res.notes.append(tuple(f))
+            elif kind == "INFO":
+                res.infos.append(tuple(f))
         if not keep_events:
             try:
                 os.remove(ef)
